@@ -211,7 +211,9 @@ func runC15(r *Run) {
 			for _, fr := range fieldRefs(f) {
 				if fr.Write {
 					n++
-					if !(dom(fr.Instr.Block(), puts[0].Block())) {
+					// every path to the Put passes this reset (the reset may live in a helper the release calls)
+					w := fr.Instr
+					if _, hit := reach(entryOf(f), func(in ssa.Instruction) bool { return in == puts[0].Instr }, nil, func(in ssa.Instruction) bool { return in == w }); hit != nil {
 						okDom = false
 					}
 				}
